@@ -48,8 +48,19 @@ def construct(delivery: dict):
 
 def observe(delivery: dict, expand_limit=60):
     """-> ("ok", snapshot incl. parse warnings) | ("construct_raises"|"parse_raises", [type, msg])"""
+    f = delivery.get("fault") if delivery.get("mode") == "files" else None
     try:
-        p = construct(delivery)
+        if f and f["kind"] == "interrupt":
+            from simkit.inject import Injector, SimFault
+
+            inj = Injector(int(f["k"]))
+            try:
+                p = inj.run(construct, delivery)
+            except SimFault:
+                _fs.stats["interrupt_fired"] = _fs.stats.get("interrupt_fired", 0) + 1
+                return "construct_raises", ["SimFault", str(inj.where)]
+        else:
+            p = construct(delivery)
     except Exception as e:
         return "construct_raises", [type(e).__name__, str(e).splitlines()[0] if str(e) else ""]
     try:
@@ -100,7 +111,7 @@ def run_c02(args: dict) -> dict:
             plans.append({"dseed": rng.getrandbits(48), "knobs": decpack.draw_knobs(rng, faults=bool(args.get("faults")), raw=raw)})
     h = hashlib.sha256()
     h.update(json.dumps(oracle, sort_keys=True).encode())
-    faults = {"eio_surfaced": 0, "eio_absorbed": 0, "vanish_surfaced": 0, "fault_not_reached": 0, "retries_after_fault": 0}
+    faults = {"eio_surfaced": 0, "fault_absorbed": 0, "vanish_surfaced": 0, "constructor_interrupted": 0, "fault_not_reached": 0, "retries_after_fault": 0}
     for i, plan in enumerate(plans):
         knobs = dict(decpack.KNOB_DEFAULTS)
         knobs.update(plan["knobs"])
@@ -119,7 +130,7 @@ def run_c02(args: dict) -> dict:
         if fault:
             # relaxed oracle, deliberately narrow: the constructor may fail; it may never answer from truncated input
             if kind == "construct_raises":
-                faults["eio_surfaced" if fault["kind"] == "eio" else "vanish_surfaced"] += 1
+                faults[{"eio": "eio_surfaced", "vanish": "vanish_surfaced", "interrupt": "constructor_interrupted"}[fault["kind"]]] += 1
                 # the fault was transient: the same files, unchanged, are read again in the same process
                 retry = dict(delivery)
                 retry["fault"] = None
@@ -127,10 +138,11 @@ def run_c02(args: dict) -> dict:
                 faults["retries_after_fault"] += 1
                 out["deliveries"] += 1
                 fault = None  # from here on the ordinary, strict oracle applies
-            if not (fired["eio_fired"] or fired["vanish_fired"]):
-                faults["fault_not_reached"] += 1
+            elif not (fired["eio_fired"] or fired["vanish_fired"] or fired.get("interrupt_fired")):
+                faults["fault_not_reached"] += 1  # e.g. a kill point beyond the end of the constructor: an ordinary delivery
+                fault = None
             else:
-                faults["eio_absorbed"] += 1
+                faults["fault_absorbed"] += 1  # the constructor returned although the fault fired: it must still answer canonically
         retried = bool(delivery.get("fault")) and fault is None
         if kind != "ok":
             out["verdict"] = "violation"
